@@ -177,8 +177,10 @@ class Batch:
         all_items, all_impl, all_reb, spans = [], [], [], []
         for case in cases:
             items = expand(case, self.probes)
-            impl, reb = impl_lines(items, self.with_rebuild,
-                                   {"encoding": case["enc"]} if case.get("enc") else None)
+            kw = dict(case.get("csvkw") or {})
+            if case.get("enc"):
+                kw["encoding"] = case["enc"]
+            impl, reb = impl_lines(items, self.with_rebuild, kw or None)
             spans.append((len(all_items), len(items)))
             all_items += items
             all_impl += impl
